@@ -159,7 +159,8 @@ func matchPayload(p evPayload, e host.Event) string {
 			}
 			return fmt.Sprintf("field %s declared with type %s, expected %s", p.Names[i], got, p.Tyids[i])
 		}
-		got, want := canonJSON(projValue(vals[i], projMode{})), canonJSON(normAbs(p.Vals[i], projMode{}))
+		dm := projMode{dictSet: true} // dictionary entries are compared as a set
+		got, want := canonJSON(projValue(vals[i], dm)), canonJSON(normAbs(p.Vals[i], dm))
 		if got != want {
 			return fmt.Sprintf("field %s carries %s, expected %s", p.Names[i], got, want)
 		}
@@ -233,6 +234,13 @@ func runEvents(args []string) {
 			counts["executions"]++
 			mu.Unlock()
 			if res.Err != nil {
+				if host.IsInternal(res.Class) {
+					// the checker accepted the program; an internal error / crash while emitting is evidence about the code
+					out.Write(M{"prop": "C48", "kind": "emit-internal-error", "site": r.Site, "engine": engine, "id": r.ID, "problem": "internal-error",
+						"fty": "", "fkind": "", "msg": fmt.Sprintf("site %s (%s): emitting fails with %s: %s", r.Site, engine, res.Class, firstLine(res.Err)),
+						"src": contract + "\n" + program, "row": r})
+					continue
+				}
 				out.Write(M{"kind": "harness", "msg": "generated program failed: " + firstLine(res.Err), "src": contract + "\n" + program, "id": r.ID, "engine": engine})
 				return
 			}
